@@ -87,6 +87,13 @@ class VwReadingsS:
     latest: str | bytes = ""
     history: tuple[str | bytes, ...] = ()
 
+class VwErr(Exception):
+    """no hints, and a constructor inherited from a C base that has no text signature"""
+
+import types as _vw_types
+class VwNS(_vw_types.SimpleNamespace):
+    pass
+
 def _vw_make_local():
     @dataclasses.dataclass
     class VwLocP:
@@ -150,7 +157,7 @@ RAW = [
     ("typing.Union[list[vwx.VwXPayee], vwx.VwXPayee]", False), ("tuple[vwx.VwXSelf, list[vwx.VwXSelf], vwx.VwXOwner]", False), ("vwx.VwXOwner", False),
     ("VwTBC", True), ("VwNC", True), ("VwAC", True), ("list[VwTBC]", False), ("typing.Optional[VwNC]", False), ("dict[str, VwAC]", False), ("VwHook", False),
     ("typing.ClassVar[typing.Callable[[int], str]]", True),
-    ("VwLocH", False), ("list[VwLocH]", False), ("VwLocH", False),
+    ("VwLocH", False), ("list[VwLocH]", False), ("VwLocH", False), ("VwErr", False), ("list[VwErr]", False), ("VwNS", False), ("dict[str, VwNS]", False),
     ("VwKids", False), ("list[VwKids]", False), ("dict[str, VwKids]", False), ("VwKids", False), ("list[VwKids]", False),
     ("VwReadings", False), ("VwReadingsT", False), ("VwReadingsS", False), ("list[VwReadings]", False),
     ("VwTwoDepths", False), ("VwTwoDepthsT", False), ("list[VwScale | None]", False), ("dict[str, VwTwoDepthsT]", False),
